@@ -122,7 +122,7 @@ def orPanicO {α : Type} (o : Option α) (k : α → Outcome) : Outcome :=
 @[rs_eval] theorem orPanicO_none {α} (k : α → Outcome) : orPanicO none k = .panic := rfl
 
 -- [shm] begin: the array comparison added to `binOp` (`Rs/Interp.lean`, block `[shm]`)
-rs_register_eqns intListEq
+rs_register_eqns intListEq tupleFieldName
 -- [shm] end
 -- [poller] begin: trait-impl method resolution (`Rs/Interp.lean`, block [poller])
 rs_register_eqns SelfKind.hasRecv traitImplCands traitImplDecl
